@@ -384,6 +384,7 @@ type c17Job struct {
 	Seed  string `json:"seed"`
 	PS    int    `json:"ps"`
 	Calls []int  `json:"calls"`
+	NFS   bool   `json:"nfs,omitempty"` // cli: the file was last written without a persisted freelist
 }
 
 type c17Res struct {
@@ -557,7 +558,7 @@ func c17Work(job c17Job) c17Res {
 			}
 		}
 	case "cli":
-		sc := &hx.Scope{Seed: Seeds[job.Seed], Cfg: apix.Cfg{PageSize: job.PS, Freelist: "array"}}
+		sc := &hx.Scope{Seed: Seeds[job.Seed], Cfg: apix.Cfg{PageSize: job.PS, Freelist: "array", NoFreelistSync: job.NFS}}
 		data, err := hx.BuildSeedData(sc)
 		if err != nil {
 			res.Err = err.Error()
@@ -570,18 +571,54 @@ func c17Work(job c17Job) c17Res {
 		before := sha256.Sum256(data)
 		cmds := [][]string{{"check", path}, {"dump", path, "0"}, {"dump", path, "3"}, {"page", path, "0"}, {"page", path, "3"}, {"page", "--all", path}, {"pages", path},
 			{"keys", path, "p"}, {"get", path, "p", "a"}, {"buckets", path}, {"stats", path}, {"inspect", path}, {"info", path}, {"page-item", path, "3", "0"}}
-		for _, c := range cmds {
-			res.Count++
-			code, out := RunCLI(c...)
-			_ = out
-			now, _ := os.ReadFile(path)
-			if sha256.Sum256(now) != before {
-				res.Fail = fmt.Sprintf("`bbolt %s` (exit %d) modified the data file", strings.Join(c[:1], " "), code)
-				return res
+		// every I/O call and every handle the command opens is observed: an inspection command must open read-only
+		// (the shared lock and the read-only mapping follow from that, parts seq-* and poke) and must not write, grow or sync
+		var seen []string
+		t := &apix.Tap{}
+		t.OnIO = append(t.OnIO, func(ev *apix.IOEvent) error {
+			switch {
+			case ev.Op != bolt.VerifMmap:
+				seen = append(seen, "issued "+ev.String())
+			case !ev.DB.IsReadOnly():
+				seen = append(seen, "opened the database read-write")
 			}
-			if c[0] == "check" && code != 0 {
-				res.Fail = fmt.Sprintf("`bbolt check` exits %d on a consistent file: %s", code, lastLine(out))
-				return res
+			return nil
+		})
+		apix.SetTap(t)
+		defer apix.SetTap(nil)
+		// a second, read-only handle stays open throughout: inspection must be possible next to other readers
+		// (a command asking for the exclusive lock would poll for it forever - caught above before it can happen,
+		// because the same command has just run alone)
+		for pass := 0; pass < 2; pass++ {
+			var other *bolt.DB
+			if pass == 1 {
+				other, err = bolt.Open(path, 0600, &bolt.Options{ReadOnly: true})
+				if err != nil {
+					res.Err = "second read-only handle: " + err.Error()
+					return res
+				}
+			}
+			for _, c := range cmds {
+				res.Count++
+				seen = seen[:0]
+				code, out := RunCLI(c...)
+				now, _ := os.ReadFile(path)
+				if sha256.Sum256(now) != before {
+					res.Fail = fmt.Sprintf("`bbolt %s` (exit %d) modified the data file (freelist persisted: %v)", c[0], code, !job.NFS)
+				} else if len(seen) > 0 {
+					res.Fail = fmt.Sprintf("`bbolt %s` (exit %d) %s (freelist persisted: %v)", c[0], code, seen[0], !job.NFS)
+				} else if c[0] == "check" && code != 0 {
+					res.Fail = fmt.Sprintf("`bbolt check` exits %d on a consistent file: %s", code, lastLine(out))
+				}
+				if res.Fail != "" {
+					if other != nil {
+						other.Close()
+					}
+					return res
+				}
+			}
+			if other != nil {
+				other.Close()
 			}
 		}
 	}
@@ -607,7 +644,7 @@ func C17(tier string) int {
 	start := time.Now()
 	LoadFindings()
 	nLocal, nRemote, depthRO := 6, 5, 2
-	seeds := []string{"inline", "twolevel", "nested", "overflow"}
+	seeds := []string{"inline", "twolevel", "nested", "overflow", "bigkeys"}
 	if tier == "thorough" {
 		nLocal, nRemote, depthRO = 7, 6, 3
 		seeds = append(seeds, "leaf", "threelevel", "freeruns")
@@ -650,6 +687,7 @@ func C17(tier string) int {
 			add(c17Job{Part: "ro", Seed: sd, PS: 1024, Calls: progs[lo]}, false)
 		}
 		add(c17Job{Part: "cli", Seed: sd, PS: 1024}, false)
+		add(c17Job{Part: "cli", Seed: sd, PS: 1024, NFS: true}, false)
 		for _, ps := range []int{1024, 4096} {
 			add(c17Job{Part: "poke", Seed: sd, PS: ps}, true)
 		}
